@@ -220,14 +220,18 @@ class VLoop(object):
     return sorted([(at, seq, tm) for (at, seq, tm) in self._timers if tm._active and tm.seq == seq],
                   key=lambda x: (x[0], x[1]))
 
-  def fire(self, timer):
-    """Advance virtual time to the timer and queue its callback."""
+  def fire(self, timer, front=False):
+    """Advance virtual time to the timer and queue its callback.  front=True: the timer expires while ready
+    callbacks are still pending; libev invokes a timer watcher directly, i.e. before those callbacks."""
     assert timer._active
     if timer.at > self._now:
       self._now = timer.at
     cb, args = timer.callback, timer.args
     timer._active = False
-    self._ready.append(_Callback(cb, args))
+    if front:
+      self._ready.appendleft(_Callback(cb, args))
+    else:
+      self._ready.append(_Callback(cb, args))
 
   def advance_to(self, t):
     if t > self._now:
